@@ -21,7 +21,9 @@
 
 #include <algorithm>
 #include <array>
+#include <cmath>
 #include <cstring>
+#include <limits>
 #include <random>
 #include <sstream>
 
@@ -62,7 +64,9 @@ namespace Oomd {
 
 int Util::parseSize(const std::string& input, int64_t* output) {
   bool is_neg = false;
-  uint64_t size = 0;
+  // accumulate in long double: exact for every integer an int64_t can hold,
+  // and large enough to notice a sum that does not fit
+  long double size = 0;
   size_t pos = 0;
   auto istr = input;
 
@@ -94,13 +98,14 @@ int Util::parseSize(const std::string& input, int64_t* output) {
     auto num = istr.substr(pos, unit_pos - pos);
     auto unit = istr.c_str()[unit_pos];
 
-    double v;
+    long double v;
     try {
       v = std::stold(num, &end_pos);
     } catch (...) {
       return -1;
     }
-    if (end_pos != num.length() || v < 0) {
+    // !(v >= 0) also rejects NaN
+    if (end_pos != num.length() || !(v >= 0) || !std::isfinite(v)) {
       return -1;
     }
 
@@ -125,7 +130,13 @@ int Util::parseSize(const std::string& input, int64_t* output) {
     size += v;
     pos = unit_pos + 1;
   }
-  *output = is_neg ? -size : size;
+  // 2^63: anything from here up cannot be represented, report it instead of
+  // returning a wrapped (or undefined) conversion result
+  if (!(size < 9223372036854775808.0L)) {
+    return -1;
+  }
+  int64_t bytes = static_cast<int64_t>(size);
+  *output = is_neg ? -bytes : bytes;
   return 0;
 }
 
@@ -135,8 +146,10 @@ int Util::parseSizeOrPercent(
     int64_t total) {
   try {
     if (input.size() > 0 && input.at(input.size() - 1) == '%') {
-      int64_t pct = std::stoi(input.substr(0, input.size() - 1));
-      if (pct < 0 || pct > 100) {
+      const auto pct_str = input.substr(0, input.size() - 1);
+      size_t pct_len = 0;
+      int64_t pct = std::stoi(pct_str, &pct_len);
+      if (pct_len != pct_str.size() || pct < 0 || pct > 100) {
         return -1;
       }
 
@@ -149,7 +162,12 @@ int Util::parseSizeOrPercent(
       // compat - a bare number is interpreted as megabytes
       v = std::stoll(input, &end_pos);
       if (end_pos == input.length()) {
-        *output = v << 20;
+        constexpr int64_t kMaxMegabytes =
+            std::numeric_limits<int64_t>::max() >> 20;
+        if (v > kMaxMegabytes || v < -kMaxMegabytes) {
+          return -1;
+        }
+        *output = v * (1LL << 20);
         return 0;
       }
 
